@@ -222,6 +222,10 @@ func upExec(c *hlib.RunCtx, t *simrt.Tape) (*hlib.Violation, int) {
 	m.roundMode, m.roundAsof, _, _ = parseMode(filepath.Join(m.tele, "mode"))
 	m.roundStart = s.NowT()
 	m.snapshotFiles()
+	hadBefore := reportWeeks(m.loc)
+	for w := range reportWeeks(m.upl) {
+		hadBefore[w] = true
+	}
 	var runErr error
 	p := s.NewProc("uploader", nil)
 	tk := s.Spawn(p, "uploader", func() {
@@ -249,16 +253,41 @@ func upExec(c *hlib.RunCtx, t *simrt.Tape) (*hlib.Violation, int) {
 	if c.Prop == "C07" && m.viol == nil {
 		// C07 after a disk failure: whatever failed, a counter file that is gone
 		// belongs to a week that has a report.
+		// (A report that was there when the file went counts even if it is gone
+		// by the end of the run: the server may have refused it.)
 		var names []string
 		for p := range m.roundFiles {
 			names = append(names, p)
 		}
 		sort.Strings(names)
+		reportAt := map[string]int{} // week -> index of the first call that put a report in place
+		removedAt := map[string]int{}
+		for _, fc := range s.CallLog {
+			if fc.Err != nil {
+				continue
+			}
+			dst := fc.Path
+			if fc.Op == "rename" && fc.Path2 != "" {
+				dst = fc.Path2
+			}
+			if w, kind := weekOfReportPath(dst); kind != "" && !strings.Contains(filepath.Base(dst), ".tmp") && (fc.Op == "link" || fc.Op == "rename" || fc.Op == "create-excl" || fc.Op == "open-create" || fc.Op == "writefile-open") {
+				if _, ok := reportAt[w]; !ok {
+					reportAt[w] = fc.Idx
+				}
+			}
+			if fc.Op == "remove" && strings.HasSuffix(fc.Path, ".v1.count") {
+				removedAt[filepath.Join(c.Dir, fc.Path)] = fc.Idx
+			}
+		}
 		for _, p := range names {
 			mf := m.roundFiles[p]
-			if !exists(p) && !m.reportExists(mf.week) && m.viol == nil {
-				m.fail("removed-before-report", "after a failed file-system call %s is gone although no report for week %s exists", mf.base, mf.week)
+			if exists(p) || m.reportExists(mf.week) || hadBefore[mf.week] || m.viol != nil {
+				continue
 			}
+			if at, ok := reportAt[mf.week]; ok && at < removedAt[p] {
+				continue
+			}
+			m.fail("removed-before-report", "after a failed file-system call %s is gone although no report for week %s existed when it was removed", mf.base, mf.week)
 		}
 		return m.viol, s.FsCalls
 	}
